@@ -177,6 +177,16 @@ def run(F, rep, tier, allfacts):
         key = re.search(r"types::(\w+)::", n).group(1)
         rep.check(bool(nones) and bool(comp) and all(any(cfg.dominates(x, c) for x in nones) for c in comp), "DOM-precompute", key + ":metadata=None-before-compute", where,
                   "precompute must clear the cached metadata before computing the new one (compute() calls id(), which would otherwise return the stale cached id); None-assignments at %s, compute at %s" % (nones, comp))
+        # every other value stored in the new metadata is obtained through accessors that answer from the cache when it is
+        # present: each call that receives `self` must therefore come after the clear as well
+        early = []
+        for i, c, args, dest, tgt, line in calls(f):
+            if callee_matches(c, r"ops::drop|drop_in_place"):
+                continue
+            if any(re.match(r"^arg:self($|\.)", describe(f, a, depth=4)) for a in args) and not any(cfg.dominates(x, i) for x in nones):
+                early.append((callee_name(c).rsplit("::", 1)[-1], line))
+        rep.check(not early, "DOM-precompute", key + ":no-self-read-before-clear", where,
+                  "precompute reads through `self` before clearing the cached metadata (the accessor answers from the stale cache): %s" % early)
     ci = [(n, f) for n, f in F.find(r"UniqueIdentifier>::cached_id$", ["fuel_tx"]) if "transaction::Transaction as" not in n]
     for n, f in ci:
         clos = [cf for cn, cf in cg.fns.items() if cf["kind"] == "Closure" and cf.get("parent") == n]
